@@ -176,7 +176,13 @@ public:
             add(QStringLiteral("pump"), {});
             add(QStringLiteral("pw"), { 0 });
             add(QStringLiteral("pump"), {});
-            add(QStringLiteral("response"), { c, 2, u });
+            // the last step of the exchange is normally an empty response; a client may put anything there, e.g. a full
+            // response naming somebody else
+            if (r.chance(0.3)) {
+                add(QStringLiteral("response"), { c, (qint64)r.weighted({ 40, 40, 0, 20 }), (qint64)((u + 1 + r.uniform(3)) % 4) });
+            } else {
+                add(QStringLiteral("response"), { c, 2, u });
+            }
             add(QStringLiteral("pump"), {});
             add(QStringLiteral("open"), { c, 0 });
             add(QStringLiteral("bind"), { c, 0 });
